@@ -1,6 +1,7 @@
 //! C06 — CBox / CSliceBox lifecycles with heap-owning, zero-sized and plain payloads.
 use cglue::boxed::{CBox, CSliceBox};
-use cglue::trait_group::{c_void, NoContext, Opaquable};
+use cglue::prelude::v1::*;
+use cglue::trait_group::{c_void, IntoInner, NoContext, Opaquable};
 use proptest::prelude::*;
 use serde::{Deserialize, Serialize};
 use verifkit::tok::{self, HeapTok, ZTok};
@@ -15,7 +16,67 @@ pub enum Op {
     Opaque(u16),
     Touch(u16),
     Drop(u16),
+    /// take the value out of a (non-opaque) CBox again
+    IntoInner(u16),
+    /// payload kind as above; container: 0 boxed, 1 boxed with arc context, 2 group
+    NewObj(u8, u8),
+    /// call the consuming method of an object
+    Consume(u16),
 }
+
+/// an object whose implementor may be zero-sized, heap-owning or plain
+#[cglue_trait]
+pub trait Fin {
+    fn peek(&self) -> u64;
+    fn fin(self) -> u64;
+}
+#[cglue_trait]
+pub trait FinX {
+    fn finx(&self) -> u64;
+}
+cglue_trait_group!(FinGroup, Fin, { FinX });
+impl Fin for HeapTok {
+    fn peek(&self) -> u64 {
+        self.val()
+    }
+    fn fin(self) -> u64 {
+        self.val() ^ 1
+    }
+}
+impl Fin for ZTok {
+    fn peek(&self) -> u64 {
+        77
+    }
+    fn fin(self) -> u64 {
+        78
+    }
+}
+impl Fin for u64 {
+    fn peek(&self) -> u64 {
+        *self
+    }
+    fn fin(self) -> u64 {
+        self ^ 1
+    }
+}
+impl FinX for HeapTok {
+    fn finx(&self) -> u64 {
+        1
+    }
+}
+impl FinX for ZTok {
+    fn finx(&self) -> u64 {
+        2
+    }
+}
+impl FinX for u64 {
+    fn finx(&self) -> u64 {
+        3
+    }
+}
+cglue_impl_group!(HeapTok, FinGroup, { FinX });
+cglue_impl_group!(ZTok, FinGroup, { FinX });
+cglue_impl_group!(u64, FinGroup, {});
 
 #[derive(Debug, Clone, Serialize, Deserialize)]
 pub struct Case {
@@ -32,12 +93,16 @@ enum B {
     SU(CSliceBox<'static, u64>, Vec<u64>),
     O(CBox<'static, c_void>),
     SO(CSliceBox<'static, c_void>, usize),
+    Obj(FinBox<'static>, u64),
+    ObjCtx(FinArcBox<'static>, u64),
+    Grp(FinGroupBox<'static>, u64),
 }
 
 fn body(c: &Case) -> Result<(bool, bool), Fail> {
     let mut pool: Vec<B> = Vec::new();
     let mut zst_nonempty = false;
     let mut opaque = false;
+    let mut consumable = false;
     for (step, op) in c.ops.iter().enumerate() {
         let n = pool.len();
         match op {
@@ -121,6 +186,66 @@ fn body(c: &Case) -> Result<(bool, bool), Fail> {
                 let i = pick(*i, n);
                 drop(pool.remove(i));
             }
+            Op::IntoInner(i) => {
+                let i = pick(*i, n);
+                match pool.remove(i) {
+                    B::H(x, v) => {
+                        let t = unsafe { x.into_inner() };
+                        ensure!(t.val() == v, "C06:box-contents", "step {step}: into_inner gave another value");
+                    }
+                    B::Z(x) => drop(unsafe { x.into_inner() }),
+                    B::U(x, v) => ensure!(unsafe { x.into_inner() } == v, "C06:box-contents", "step {step}: into_inner gave another value"),
+                    b => pool.insert(i, b),
+                }
+            }
+            Op::NewObj(kind, cont) => {
+                let v = 5000 + step as u64;
+                consumable = true;
+                macro_rules! mkobj {
+                    ($val:expr, $peek:expr) => {
+                        match cont % 3 {
+                            0 => B::Obj(trait_obj!($val as Fin), $peek),
+                            1 => B::ObjCtx(trait_obj!(($val, CArc::from(9u8).into_opaque()) as Fin), $peek),
+                            _ => B::Grp(group_obj!($val as FinGroup), $peek),
+                        }
+                    };
+                }
+                pool.push(match kind % 3 {
+                    0 => mkobj!(HeapTok::new(v), v),
+                    1 => mkobj!(ZTok::new(), 77),
+                    _ => mkobj!(v, v),
+                });
+            }
+            Op::Consume(i) => {
+                let i = pick(*i, n);
+                match pool.remove(i) {
+                    B::Obj(o, p) => {
+                        ensure!(o.peek() == p, "C06:box-contents", "step {step}: object answers {} instead of {p}", o.peek());
+                        let r = o.fin();
+                        ensure!(r == p ^ 1 || (p == 77 && r == 78), "C06:box-contents", "step {step}: consuming call returned {r}");
+                    }
+                    B::ObjCtx(o, p) => {
+                        let r = o.fin();
+                        ensure!(r == p ^ 1 || (p == 77 && r == 78), "C06:box-contents", "step {step}: consuming call returned {r}");
+                    }
+                    B::Grp(g, p) => {
+                        // half of the time through a cast / into of the group
+                        if step % 2 == 0 {
+                            let r = g.fin();
+                            ensure!(r == p ^ 1 || (p == 77 && r == 78), "C06:box-contents", "step {step}: consuming call on the group returned {r}");
+                        } else {
+                            match into!(g impl FinX) {
+                                Some(f) => {
+                                    let r = f.fin();
+                                    ensure!(r == p ^ 1 || (p == 77 && r == 78), "C06:box-contents", "step {step}: consuming call after into! returned {r}");
+                                }
+                                None => {} // u64 does not enable FinX: the failed conversion dropped the group
+                            }
+                        }
+                    }
+                    b => pool.insert(i, b),
+                }
+            }
         }
     }
     let mut k = 0;
@@ -129,7 +254,7 @@ fn body(c: &Case) -> Result<(bool, bool), Fail> {
         k += 1;
         drop(pool.remove(i));
     }
-    Ok((zst_nonempty, opaque))
+    Ok((zst_nonempty, opaque || consumable))
 }
 
 pub fn check(c: &Case) -> CaseResult {
@@ -152,6 +277,9 @@ pub fn strategy() -> impl Strategy<Value = Case> {
         3 => any::<u16>().prop_map(Op::Opaque),
         2 => any::<u16>().prop_map(Op::Touch),
         3 => any::<u16>().prop_map(Op::Drop),
+        2 => any::<u16>().prop_map(Op::IntoInner),
+        3 => (0u8..3, 0u8..3).prop_map(|(k, c)| Op::NewObj(k, c)),
+        3 => any::<u16>().prop_map(Op::Consume),
     ];
     (prop::collection::vec(op, 0..24), prop::collection::vec(any::<u16>(), 0..10)).prop_map(|(ops, drop_order)| Case { ops, drop_order })
 }
